@@ -111,14 +111,15 @@ def gen_db(rng, small):
     return setup, "|".join(",".join(t) for t in threads)
 
 
-def sweeps(nthreads, span):
-    """strategy-2 choice lists: thread a runs i points, is pre-empted, the next runs j points, is pre-empted, ..."""
+def sweeps(nthreads, span, double):
+    """strategy-2 choice lists: thread a runs i points, is pre-empted, (the next runs j points, is pre-empted,) ..."""
     out = []
     for start in range(nthreads):
         for i in range(span):
             out.append("%d,0*%d,1" % (start, i))
-            for j in range(0, span, 2):
-                out.append("%d,0*%d,1,0*%d,1" % (start, i, j))
+            if double and i < span - 2:
+                for j in range(0, span - 2, 2):
+                    out.append("%d,0*%d,1,0*%d,1" % (start, i, j))
     return out
 
 
@@ -126,8 +127,11 @@ def main(argv):
     chk = Check("C14", argv)
     thorough = chk.tier == "thorough"
     chk.translate(["id_allocator"])
+    chk.log("translated")
     chk.coq("Properties_C14.v")
+    chk.log("coq done")
     model = chk.extract("id", "Extract_id.v", "id_driver.ml", explorer=True)
+    chk.log("model extracted")
     impl = chk.build_cpp("c14_id", [os.path.join(VERIF, "harness/conc/c14_id.cpp"),
                                     os.path.join(VERIF, "harness/shim/dsched.cpp")],
                          flags=["-fno-access-control"], ldflags=["-ldl"])
@@ -136,6 +140,7 @@ def main(argv):
     meta = {}           # cid -> dict
     mlines = []         # model lines (small programs)
     progs = []          # (pid, kind, bits, setup, prog, small)
+    directed = set()
 
     def add_prog(kind, bits, setup, prog, small):
         key = (kind, bits, setup, prog)
@@ -158,7 +163,8 @@ def main(argv):
             add_prog("AL", 16 if i % 2 == 0 else 32, s, p, True)
         for s, p in DB_DIRECTED:
             add_prog("DB", 32, s, p, True)
-        n_small, n_big = (36, 50) if not thorough else (150, 300)
+        directed = set(p[0] for p in progs)
+        n_small, n_big = (30, 40) if not thorough else (150, 300)
         for kind, gen in (("AL", gen_al), ("DB", gen_db)):
             for small, n in ((True, n_small), (False, n_big)):
                 k = tries = 0
@@ -174,7 +180,7 @@ def main(argv):
         nth = prog.count("|") + 1
         sl = list(scheds)
         if not chk.replay and small:
-            sl += [(1, 2, c) for c in sweeps(nth, 10 if not thorough else 16)]
+            sl += [(1, 2, c) for c in sweeps(nth, 10 if not thorough else 16, pid in directed or thorough)]
         for si, (seed, strat, choices) in enumerate(sl):
             cid = "%s.%d" % (pid, si)
             if kind == "AL":
